@@ -237,7 +237,9 @@ def build_world(case, audio_root: Path):
             rev[(tkey, tval)] = i
         elif k == "recording":
             base = {"inside": audio_root, "outside": audio_root.parent / "elsewhere",
-                    "outside_prefix": Path(str(audio_root) + "_backup")}[place]   # a sibling whose name merely starts like the directory
+                    "outside_prefix": Path(str(audio_root) + "_backup"),   # a sibling whose name merely starts like the directory
+                    # a sibling whose name differs from the directory's only by letter case (another directory on a POSIX system)
+                    "outside_case": audio_root.parent / audio_root.name.swapcase()}[place]
             p = base.joinpath(*case.get("dir", [])) / (i + "_" + case.get("file", "rec.wav"))
             kw = scalars(data.Recording, i, pat, skip=("path", "tags", "notes", "owners"))
             kw.setdefault("duration", 10.0); kw.setdefault("channels", 1); kw.setdefault("samplerate", 8000)
